@@ -32,7 +32,9 @@ SPEC = dict(
                 "on the node list, invariant: states and buffers agree off the fresh ids); sched_refines_denot — a partitioned "
                 "schedule (subgraphs in order, each running its operators in its own order, handoffs = buffers) computes the flat "
                 "program's outputs for every partition whose flattened order is a topological order of the same nodes, hence "
-                "partition_independent. Tie: ~350 compiled pairs (original, perturbed by 1-3 random stage insertions) of "
+                "partition_independent. Tie: ~335 compiled pairs: ~200 (original, perturbed by 1-3 random stage insertions) and 133 "
+                "systematic ones (every two-input operator of the catalogue, and partition / unzip, x each input resp. output port x "
+                "{unary tee, unary union with [0] port, unary union with elided port, a chain of two} directly at that port) of "
                 "dfir_syntax! programs covering the operator catalogue, run on the same generated inputs; the original is diffed "
                 "against the Lean interpreter of the program, the variant against the interpreter of the *perturbed* program "
                 "(`perturbNodes`, the function the theorem is about); for every original the partition the real compiler chose "
